@@ -317,7 +317,7 @@ class Policy:
                         stop_reason=StopReason.ABORTED,
                     )
                 )
-            return build_aborted_outcome(ctx)
+            return build_aborted_outcome(ctx, attempts=1)
 
         except (KeyboardInterrupt, SystemExit):
             record_cancel(ctx)
